@@ -54,6 +54,7 @@ func runC13(c *Ctx) []Obligation {
 	P := "C13"
 	var out []Obligation
 	out = append(out, c.cacheInventory(P)...)
+	out = append(out, c.keyInjective(P, "vbc.cache-key-injective", "types.GetCacheKey", "the validators-by-chain cache must not answer for another (height, chain)"))
 	out = append(out, c.withCtxDiscipline(P, "ApplicationCache", []string{"GetWithCtx", "AddWithCtx", "RemoveWithCtx"}),
 		c.withCtxDiscipline(P, "validatorCache", []string{"AddWithCtx", "RemoveWithCtx", "GetWithCtx"}))
 	out = append(out, c.Rows([]Row{
